@@ -91,6 +91,8 @@ def jobs(tier, seed):
     for doc in ('html', 'css', 'js', 'sitemap', 'sitemap-txt'):
         js.append(dict(kind='doc', doc=doc, stride=stride if doc == 'html' else 1))
     js.append(dict(kind='e2e'))
+    for i in range(0, len(ROBOTS_STATUS), 3):
+        js.append(dict(kind='robots-status', statuses=ROBOTS_STATUS[i:i + 3]))
     if seed:
         k = seed % len(js)
         js = js[k:] + js[:k]
@@ -340,6 +342,17 @@ def run_job(job):
                            dict(kind='doc', doc=job['doc'], data=data.decode('latin-1'),
                                 variant=variant))
         res['samples'].append(dict(surface='document', doc=job['doc'], cases=n))
+    elif kind == 'robots-status':
+        for status in job['statuses']:
+            for body in ROBOTS_BODIES:
+                v = run_robots_e2e(status, body)
+                res['evaluations'] += 1
+                tally(v)
+                res['distinct'].add(h64(('rs', status, body)))
+                if v:
+                    record(res, seen, 'robots-status/' + status.split(' ')[0], status, v,
+                           dict(kind='robots-status', status=status, body=body))
+        res['samples'].append(dict(surface='robots.txt status', statuses=job['statuses']))
     else:
         for name in E2E:
             v = run_e2e(name)
@@ -371,6 +384,39 @@ E2E = {
     'refresh': 'HTTP/1.1 200 OK\r\nRefresh: 0; url=http://[bad\r\nContent-Type: text/html\r\n'
                'Content-Length: 13\r\n\r\n<a href="/s">',
 }
+
+
+ROBOTS_STATUS = ['200 OK', '201 Created', '203 Non-Authoritative', '204 No Content',
+                 '206 Partial Content', '300 Multiple Choices', '301 Moved', '302 Found',
+                 '304 Not Modified', '400 Bad', '401 Unauthorized', '403 Forbidden',
+                 '404 Not Found', '410 Gone', '418 Teapot', '451 Legal', '500 Oops',
+                 '503 Busy', '600 Strange', '999 Nines', '99 Short', '1000 Long', '-1 Neg',
+                 '2xx What']
+ROBOTS_BODIES = ['User-agent: *\nDisallow: /x\n', '', '\xff\xfe\x00', '<html>not robots</html>']
+
+
+def run_robots_e2e(status, body):
+    """Crawl with robots checking on; the origin answers /robots.txt with an unusual
+    status line and body.  The crawl must not crash."""
+    from vt.appharn import AppRun
+    raw = 'HTTP/1.1 %s\r\nContent-Type: text/plain\r\nContent-Length: %d\r\n\r\n%s' % (
+        status, len(body), body)
+    if status.startswith(('204', '304')):
+        raw = 'HTTP/1.1 %s\r\n\r\n' % status
+    site = {'hosts': {'a.test': {
+        '/': {'links': ['/sibling']}, '/sibling': {'links': []},
+        '/robots.txt': {'raw': raw}}}}
+    argv = ['http://a.test/', '-r', '--delete-after', '--waitretry', '0', '--tries', '2']
+    out = AppRun(site, argv, Chooser(), early=False).run()
+    if out['result'] != 'ok':
+        return 'crawl does not terminate: %s' % out['result']
+    if out['exc']:
+        return 'application raised %s' % out['exc']
+    if out['exit'] == 1:
+        return 'exit status 1 (generic error / crash)'
+    if out['loop_errors']:
+        return 'unretrieved exception %r' % (out['loop_errors'][:1],)
+    return None
 
 
 def run_e2e(name):
@@ -405,6 +451,8 @@ def replay(rec):
         v = run_ftp_case(rec['script'], rec['mode'])
     elif k == 'robots':
         v = run_robots_case(rec['data'].encode('latin-1'))
+    elif k == 'robots-status':
+        v = run_robots_e2e(rec['status'], rec['body'])
     elif k == 'doc':
         v = run_doc_case(rec['doc'], rec['data'].encode('latin-1'), rec['variant'])
     else:
@@ -427,7 +475,9 @@ def describe(tier):
              'streams delivered whole (thorough: also byte-at-a-time).  Oracle: the call returns '
              'or raises one of the per-URL error kinds; scrapers raise nothing; plus %d '
              'end-to-end crawls where a hostile response must leave exit status != crash and '
-             'the sibling URL fetched.  distinct = distinct mutated inputs' % len(E2E),
+             'the sibling URL fetched, and %d crawls with robots checking on whose robots.txt is '
+             'answered with unusual status lines and bodies.  distinct = distinct mutated '
+             'inputs' % (len(E2E), len(ROBOTS_STATUS) * len(ROBOTS_BODIES)),
         bounds=dict(edit_distance='1 (2 for short grammars)'),
         assumptions=['inputs farther than 1 edit (2 for short grammars) from the seeds, and raw '
                      'random bytes, are outside this bounded enumeration (DESIGN.md section 11)',
